@@ -116,7 +116,11 @@ func checkC20(c *ctx) {
 	for n := 1; n <= maxLen; n += 2 {
 		for _, ops := range refSeqs(n) {
 			// the release operation is DecRef or Close (= DecRef): all-DecRef, all-Close, alternating
-			for variant := 0; variant < 3; variant++ {
+			for variant := 0; variant < 6; variant++ {
+				// variants 3..5: nothing is read before the first release (a holder that opens, hands
+				// out references, drops its own and only then - or never - reads)
+				lazy, released := variant >= 3, false
+				variant := variant % 3
 				s, err := zh.Plugin.Open(path)
 				must(err)
 				seg := s.(*zap.Segment)
@@ -125,6 +129,9 @@ func checkC20(c *ctx) {
 				var fail string
 				var names []string
 				for i, o := range ops {
+					if o != 0 {
+						released = true
+					}
 					var derr error
 					switch {
 					case o == 0:
@@ -147,10 +154,10 @@ func checkC20(c *ctx) {
 					if derr != nil {
 						fail = fmt.Sprintf("%v: the last call returned error %v", names, derr)
 					}
-					if expMapped && fail == "" {
+					if expMapped && fail == "" && (!lazy || released) {
 						got, err := zh.Dump(seg)
 						if err != nil || got.Sx().String() != wantS {
-							fail = fmt.Sprintf("after %v: segment no longer reads back its content (err=%v)", names, err)
+							fail = fmt.Sprintf("after %v (nothing read before the first release: %v): segment no longer reads back its content (err=%v)", names, lazy, err)
 						}
 					}
 					if fail != "" {
@@ -161,7 +168,7 @@ func checkC20(c *ctx) {
 				if fail == "" && (last.L[2].N != 1 || last.L[0].N != 0) {
 					fail = "model did not end released exactly once (harness generator bug)"
 				}
-				c.Case(fmt.Sprint(ops, variant), len(ops) >= 3 && adds > 0)
+				c.Case(fmt.Sprint(ops, variant, lazy), len(ops) >= 3 && adds > 0)
 				c.Count(fmt.Sprintf("len=%d", len(ops)))
 				if len(ops) == 5 && variant == 2 {
 					c.Sample(map[string]interface{}{"calls": names, "model_trace(refs,mapped,releases)": tr.Pretty()})
@@ -419,6 +426,11 @@ func checkC20(c *ctx) {
 		}
 		c.Count("retained_thesaurus_after_inmemory_close")
 	}
+	// a file of several MiB: opened and released at once, with and without reads in between
+	if bad := bigFileOpenRelease(c); bad != "" {
+		c.Violation("C20 "+bad, false)
+		return
+	}
 	// the data of a closed in-memory segment stays what it was while later, smaller builds run in the
 	// same process (a snapshot may still hold the segment): dictionaries, stored fields, doc values
 	if bad := closedInMemoryThenBuilds(c); bad != "" {
@@ -605,6 +617,75 @@ func closedInMemoryThenBuilds(c *ctx) string {
 		}
 		_ = later
 		_ = w
+	}
+	return ""
+}
+
+// bigFileOpenRelease: a segment file of about 6 MiB (3000 documents with 2 KiB of incompressible
+// stored bytes each); balanced sequences that release the segment immediately after opening it,
+// after reference traffic only, or after one read; after each sequence - at once and again a few
+// milliseconds later - the mapping and the descriptor must be gone, and the file must open and
+// read again.
+func bigFileOpenRelease(c *ctx) string {
+	var b zh.Batch
+	for d := 0; d < 3000; d++ {
+		b = append(b, zh.Doc{Fields: []zh.Field{zh.IDField(fmt.Sprintf("big%05d", d)),
+			{Name: "blob", Typ: 't', Stored: true, Val: c.R.Bytes(2048)}}})
+	}
+	sb, _, err := zh.Build(b, 1026)
+	must(err)
+	path := zh.TmpPath("refbig")
+	must(zap.PersistSegmentBase(sb, path))
+	sb.Close()
+	defer os.Remove(path)
+	fi, err := os.Stat(path)
+	must(err)
+	seqs := [][]string{{"Close"}, {"AddRef", "DecRef", "Close"}, {"AddRef", "Close", "DecRef"}, {"Read", "Close"}, {"AddRef", "Close", "Read", "DecRef"}}
+	for round := 0; round < c.n(4, 30); round++ {
+		for _, seq := range seqs {
+			s, err := zh.Plugin.Open(path)
+			if err != nil {
+				return fmt.Sprintf("a %d-byte segment file cannot be opened: %v", fi.Size(), err)
+			}
+			seg := s.(*zap.Segment)
+			what := fmt.Sprintf("a segment file of %d bytes, opened, then %v with nothing else in between", fi.Size(), seq)
+			for _, op := range seq {
+				var oerr error
+				switch op {
+				case "AddRef":
+					seg.AddRef()
+				case "DecRef":
+					oerr = seg.DecRef()
+				case "Close":
+					oerr = seg.Close()
+				case "Read":
+					d := uint64(c.R.Intn(3000))
+					id, err := seg.DocID(d)
+					if err != nil || string(id) != fmt.Sprintf("big%05d", d) {
+						return fmt.Sprintf("%s: DocID(%d) = %q (err %v)", what, d, id, err)
+					}
+				}
+				if oerr != nil {
+					return fmt.Sprintf("%s: %s returned %v", what, op, oerr)
+				}
+			}
+			for _, wait := range []time.Duration{0, 3 * time.Millisecond, 20 * time.Millisecond} {
+				time.Sleep(wait)
+				if mp, fd := mappedAndFd(path); mp || fd {
+					return fmt.Sprintf("%s: %v after the last reference was dropped the file is still mapped=%v / its descriptor open=%v", what, wait, mp, fd)
+				}
+			}
+			c.Count("big_file_open_release_sequences")
+		}
+	}
+	// and it still opens and reads
+	s, err := zh.Plugin.Open(path)
+	if err != nil {
+		return "the big file cannot be opened any more: " + err.Error()
+	}
+	defer s.Close()
+	if id, err := s.DocID(2999); err != nil || string(id) != "big02999" {
+		return fmt.Sprintf("the big file no longer reads: DocID(2999) = %q (err %v)", id, err)
 	}
 	return ""
 }
